@@ -12,6 +12,7 @@ import (
 	"io"
 	"net"
 	"sync"
+	"sync/atomic"
 	"syscall"
 	"testing"
 	"time"
@@ -38,6 +39,9 @@ type C06Batch struct {
 	Keys   []kit.KeySpec `json:"keys"`
 	CacheN int           `json:"cache_n"`
 	Probes []C06Probe    `json:"probes"`
+	// >0: the listener is closed this long after the probes have started (as a reload that drops the listener
+	// does); connections accepted before that are still owed the full silence
+	CloseListenerMs int `json:"close_listener_ms,omitempty"`
 }
 
 func genC06Batch(maxProbes int) func(t *rapid.T) C06Batch {
@@ -68,16 +72,20 @@ func genC06Batch(maxProbes int) func(t *rapid.T) C06Batch {
 			p.FinAfterMs = rapid.SampledFrom([]int{0, 5, 60, 120}).Draw(t, "finAfter")
 			c.Probes = append(c.Probes, p)
 		}
+		if rapid.IntRange(0, 3).Draw(t, "closeListener") == 0 {
+			c.CloseListenerMs = rapid.SampledFrom([]int{40, 90, 150}).Draw(t, "closeAt")
+		}
 		return c
 	}
 }
 
 type c06World struct {
-	keys    []kit.KeySpec
-	front   *kit.TCPFront
-	tgt     *kit.TCPTarget
-	met     *kit.RecService
-	metByRA sync.Map
+	keys           []kit.KeySpec
+	front          *kit.TCPFront
+	tgt            *kit.TCPTarget
+	met            *kit.RecService
+	metByRA        sync.Map
+	listenerClosed atomic.Bool
 }
 
 func newC06World(keys []kit.KeySpec, cacheN int) (*c06World, error) {
@@ -226,7 +234,7 @@ func c06One(w *c06World, p C06Probe, cacheOn bool, attempt int64) (f *kit.Findin
 	t0 := time.Now()
 	conn, err := kit.DialTCP(w.front.Addr, 5*time.Second)
 	if err != nil {
-		if kit.EnvNetError(err) {
+		if kit.EnvNetError(err) || w.listenerClosed.Load() {
 			return nil, false, "relay"
 		}
 		return kit.Violation("probe:dial-refused", "%v", err), false, class
@@ -343,15 +351,29 @@ func runC06Batch(c C06Batch, info *kit.Info) *kit.Finding {
 			res[i], hit[i], classes[i] = c06One(w, c.Probes[i], c.CacheN > 0, 0)
 		}(i)
 	}
+	if c.CloseListenerMs > 0 {
+		time.Sleep(time.Duration(c.CloseListenerMs) * time.Millisecond)
+		w.listenerClosed.Store(true)
+		w.front.L.Close()
+		info.Class("listener-closed-under-probes")
+	}
 	wg.Wait()
 	for i := range c.Probes {
+		if c.CloseListenerMs > 0 {
+			for j := range classes { // nothing accepts any more
+				if classes[j] == "" {
+					classes[j] = "skipped"
+				}
+			}
+			break
+		}
 		if c.Probes[i].Kind == "replay" || c.Probes[i].Kind == "postdial" || c.Probes[i].Kind == "postdial_fin" {
 			res[i], hit[i], classes[i] = c06One(w, c.Probes[i], c.CacheN > 0, 0)
 		}
 	}
 	for i, f := range res {
 		info.Class("kind:"+c.Probes[i].Kind, "class:"+classes[i])
-		if classes[i] != "relay" && (c.Probes[i].Kind != "random" || c.Probes[i].Arg >= 48 && c.Probes[i].Arg <= 52 || c.Probes[i].Arg > 66) {
+		if classes[i] != "relay" && classes[i] != "skipped" && (c.Probes[i].Kind != "random" || c.Probes[i].Arg >= 48 && c.Probes[i].Arg <= 52 || c.Probes[i].Arg > 66) {
 			info.NonTrivial = true
 		}
 		if f == nil {
